@@ -181,7 +181,7 @@ def main():
         "hooks": {
             "guard": "DJC_VERIF",
             "enable": "no source hooks: every monitor attaches from the harness (wrapping, sys.monitoring, settings overrides); workers export DJC_VERIF=1 for uniformity",
-            "baseline_off_cmd": "cd /repo && env -u DJC_VERIF /venv/bin/python -m pytest -ra -q -p no:cacheprovider --timeout=900 --continue-on-collection-errors --junitxml=/tmp/djc-baseline-off.junit.xml",
+            "baseline_off_cmd": "cd /repo && env -u DJC_VERIF /venv/bin/python -m pytest -ra -q -p no:cacheprovider --timeout=900 --continue-on-collection-errors --junitxml=/verif/.baseline-off.junit.xml",
             "source_commits": [],
             "add_only": True,
         },
